@@ -39,7 +39,8 @@ TvInit == [robs |-> <<>>,         \* reader -> observation at open
            strictdiv |-> 0,
            lastAckLen |-> 0,
            opened |-> FALSE,
-           returned |-> {}]
+           returned |-> {},
+           cbwant |-> {}]         \* uids whose batch carries a persisted-callback
 
 TraceInit == Init /\ l = 1 /\ viol = {} /\ tv = TvInit
 
@@ -170,7 +171,8 @@ TInvoke ==
   /\ Step("Invoke")
   /\ batchOf' = Put(batchOf, Ev.uid, [del |-> Range(Ev.del), add |-> Ev.add])
   /\ retBefore' = Put(retBefore, Ev.uid, tv.returned)
-  /\ UNCHANGED <<root, fsnp, fseg, pol, inst, rd, life, applied, epochLen, acked, cbAcked, errd, cnt, tv>>
+  /\ tv' = [tv EXCEPT !.cbwant = IF Ev.cb THEN @ \cup {Ev.uid} ELSE @]
+  /\ UNCHANGED <<root, fsnp, fseg, pol, inst, rd, life, applied, epochLen, acked, cbAcked, errd, cnt>>
   /\ UNCHANGED Unused
   /\ Judge({})
 
@@ -360,6 +362,10 @@ TCloseReturn ==
            \cup (IF (\A r \in Readers : rd[r].st = "closed") /\ (\E h \in DOMAIN inst : inst[h].open)
                  THEN {"C11_handle_leaked"} ELSE {})
            \cup (IF errd # {} /\ cnt.asyncErrs = 0 THEN {"C14_error_not_surfaced"} ELSE {})
+           \* every batch that became durable had its persisted-callback invoked (callbacks of failed
+           \* rounds are parked and must be delivered by the next successful round)
+           \cup (IF ~tv.mem /\ \E u \in tv.cbwant : Durable(u) /\ u \notin cbAcked
+                 THEN {"C14_callback_of_durable_batch_never_invoked"} ELSE {})
            \cup (IF ~tv.mem /\ ~(\A u \in acked \cup cbAcked : Durable(u)) THEN {"C15_close_lost_acked"} ELSE {}))
 
 \* a reopen immediately after Close (lock must be free; content covers everything acknowledged)
